@@ -159,6 +159,73 @@ def siblings() -> List[Entry]:
     return out
 
 
+SPEC_ONLY_PREFIX = "spec-only-"
+
+
+def spec_only() -> List[Entry]:
+    """SPEC-ONLY configurations: instantiated by `translators.gen_specs` only, to walk their declared spec objects into
+    Gen/Specs.lean (ids prefixed `spec-only-`); they take part in no sweep.  For every environment class at least one
+    configuration whose constructor parameters the specs depend on are pairwise distinct and non-degenerate (and differ from
+    the catalogue configuration of the class), so that the Lean tie `<env>_obsSpec_generated` tells a symbolic spec with two
+    parameters swapped, or `n + 6` for `2 * n`, from the right one (audit r4 #3, r5 #2, r6 #3 and #7)."""
+    import jumanji.environments as E
+    from jumanji.environments.logic.graph_coloring.generator import RandomGenerator as GCGen
+    from jumanji.environments.logic.minesweeper.generator import UniformSamplingGenerator as MSGen
+    from jumanji.environments.logic.rubiks_cube.generator import ScramblingGenerator as RCGen
+    from jumanji.environments.logic.sliding_tile_puzzle.generator import RandomWalkGenerator as STGen
+    from jumanji.environments.logic.sudoku.generator import DummyGenerator as SDDummy
+    from jumanji.environments.packing.bin_pack.generator import RandomGenerator as BPGen
+    from jumanji.environments.packing.flat_pack.generator import RandomFlatPackGenerator as FPGen
+    from jumanji.environments.packing.job_shop.generator import RandomGenerator as JSGen
+    from jumanji.environments.packing.knapsack.generator import RandomGenerator as KSGen
+    from jumanji.environments.routing.cleaner.generator import RandomGenerator as CLGen
+    from jumanji.environments.routing.connector.generator import RandomWalkGenerator as CNGen
+    from jumanji.environments.routing.cvrp.generator import UniformGenerator as CVGen
+    from jumanji.environments.routing.lbf.generator import RandomGenerator as LBFGen
+    from jumanji.environments.routing.maze.generator import RandomGenerator as MZGen
+    from jumanji.environments.routing.mmst.generator import SplitRandomGenerator as MMGen
+    from jumanji.environments.routing.multi_cvrp.generator import UniformRandomGenerator as MCGen
+    from jumanji.environments.routing.robot_warehouse.generator import RandomGenerator as RWGen
+    from jumanji.environments.routing.sokoban.generator import ToyGenerator as SKToy
+    from jumanji.environments.routing.tsp.generator import UniformGenerator as TSGen
+
+    out: List[Entry] = []
+
+    def add(cid, cls, build, **meta):
+        out.append(Entry(SPEC_ONLY_PREFIX + cid, cls, build, dict(meta, spec_only=True)))
+
+    add("game2048-5", "Game2048", lambda **k: E.Game2048(board_size=5, **k))
+    add("graphcoloring-5", "GraphColoring", lambda **k: E.GraphColoring(generator=GCGen(num_nodes=5, edge_probability=0.5), **k))
+    add("minesweeper-3x4x5", "Minesweeper", lambda **k: E.Minesweeper(generator=MSGen(num_rows=3, num_cols=4, num_mines=5), **k))
+    add("rubikscube-4", "RubiksCube", lambda **k: E.RubiksCube(generator=RCGen(cube_size=4, num_scrambles_on_reset=3), time_limit=11, **k))
+    add("slidingtile-5", "SlidingTilePuzzle", lambda **k: E.SlidingTilePuzzle(generator=STGen(grid_size=5, num_random_moves=5), time_limit=13, **k))
+    add("sudoku-dummy", "Sudoku", lambda **k: E.Sudoku(generator=SDDummy(), **k))
+    add("binpack-random-6x12x5", "BinPack", lambda **k: E.BinPack(generator=BPGen(max_num_items=6, max_num_ems=12), obs_num_ems=5, **k))
+    add("flatpack-2x4", "FlatPack", lambda **k: E.FlatPack(generator=FPGen(num_row_blocks=2, num_col_blocks=4), **k))
+    add("jobshop-4x3x6x7", "JobShop", lambda **k: E.JobShop(generator=JSGen(num_jobs=4, num_machines=3, max_num_ops=6, max_op_duration=7), **k))
+    add("knapsack-5", "Knapsack", lambda **k: E.Knapsack(generator=KSGen(num_items=5, total_budget=2.0), **k))
+    add("tetris-7x5", "Tetris", lambda **k: E.Tetris(num_rows=7, num_cols=5, time_limit=11, **k))
+    add("cleaner-3x8x5", "Cleaner", lambda **k: E.Cleaner(generator=CLGen(num_rows=3, num_cols=8, num_agents=5), time_limit=13, **k))
+    add("connector-9x2", "Connector", lambda **k: E.Connector(generator=CNGen(grid_size=9, num_agents=2), time_limit=11, **k))
+    add("cvrp-3", "CVRP", lambda **k: E.CVRP(generator=CVGen(num_nodes=3, max_capacity=10, max_demand=5), **k))
+    # vector observer with num_agents * max_agent_level = 9 > grid_size = 7 (the maximum of the `agents_view` leaf is max(A*L, L, grid))
+    add("lbf-7x3x2-l3", "LevelBasedForaging", lambda **k: E.LevelBasedForaging(generator=LBFGen(grid_size=7, num_agents=3, num_food=2, fov=2, max_agent_level=3), time_limit=11, **k))
+    # grid observer: agents_view (2, 3, 7, 7) in [0, 8], again A*L = 8 > grid_size = 6
+    add("lbf-grid-6x2x1-l4", "LevelBasedForaging", lambda **k: E.LevelBasedForaging(generator=LBFGen(grid_size=6, num_agents=2, num_food=1, fov=3, max_agent_level=4), time_limit=9, grid_observation=True, **k))
+    add("maze-6x9", "Maze", lambda **k: E.Maze(generator=MZGen(num_rows=6, num_cols=9), time_limit=11, **k))
+    add("mmst-10x3x2", "MMST", lambda **k: E.MMST(generator=MMGen(num_nodes=10, num_edges=14, max_degree=4, num_agents=3, num_nodes_per_agent=2, max_step=11), time_limit=11, **k))
+    add("multicvrp-20x3", "MultiCVRP", lambda **k: E.MultiCVRP(generator=MCGen(num_customers=20, num_vehicles=3), **k))
+    # the 100-customer scenario: map_max 20, max_capacity 300, max_start_window 40 (window maximum 60) — unlike the 6- and 20-customer
+    # scenarios, where map_max = max_start_window = 10
+    add("multicvrp-100x3", "MultiCVRP", lambda **k: E.MultiCVRP(generator=MCGen(num_customers=100, num_vehicles=3), **k))
+    add("pacman-default", "PacMan", lambda **k: E.PacMan(**k))
+    add("robotwarehouse-3a-r2", "RobotWarehouse", lambda **k: E.RobotWarehouse(generator=RWGen(shelf_rows=1, shelf_columns=3, column_height=2, num_agents=3, sensor_range=2, request_queue_size=4), time_limit=11, **k))
+    add("snake-3x7", "Snake", lambda **k: E.Snake(num_rows=3, num_cols=7, time_limit=13, **k))
+    add("sokoban-toy", "Sokoban", lambda **k: E.Sokoban(generator=SKToy(), time_limit=7, **k))
+    add("tsp-4", "TSP", lambda **k: E.TSP(generator=TSGen(num_cities=4), **k))
+    return out
+
+
 _CACHE: Optional[List[Entry]] = None
 
 
